@@ -1,6 +1,7 @@
 (* C19 - struct mapping (pogs) round-trips and agrees with the generated accessors.
    Statements only; each is closed by [exact] of a lemma proved in coq/Pogs. *)
-From CV Require Import Pogs.PogsM Pogs.PogsSpec Pogs.PogsFrame Pogs.PogsProofs Pogs.PogsRoundtrip Pogs.PogsTotal Pogs.PogsFuel Pogs.PogsExamples.
+From CV Require Import Pogs.PogsM Pogs.PogsSpec Pogs.PogsFrame Pogs.PogsProofs Pogs.PogsRoundtrip Pogs.PogsTotal Pogs.PogsFuel Pogs.PogsLayoutBridge Pogs.PogsExamples.
+From CV Require Layout.Layout.
 Open Scope Z_scope.
 
 (* every mapped schema whose layout passes the check, every Go value tree, every struct (of any
@@ -25,12 +26,79 @@ Theorem C19_insert_extract_frame : forall sch tbl, table_ok tbl sch = true ->
 Proof. exact roundtrip_frame. Qed.
 Print Assumptions C19_insert_extract_frame.
 
-(* every schema (no layout condition), every struct content, every fuel: what Extract returns is
-   what reading the same fields through the generated accessors returns (errors included) *)
+(* every schema (no layout condition), every struct content, every fuel: Extract returns what the
+   whole-struct read [gen_struct] returns (errors included).  [gen_struct] is this group's model of
+   "read the struct through the generated accessors": its WALK (field loop, Which dispatch, typed
+   list element reads) is by construction the same as Extract's - that part of the statement is
+   definitional (proof: destruct/reflexivity) and says only that pogs adds nothing to the walk; the
+   content is at the leaves: [extract_field] = the per-field accessor model [gen_getter]
+   (Text/Data/struct/list default rules of pointer.go, discriminant test, XOR default), which
+   differs from the code before the two fixes (C19_agreement_prefix_refuted).  [gen_getter] is
+   tied to the accessors capnpc-go EMITS by the three theorems below. *)
 Theorem C19_extract_agrees_with_generated : forall fuel sch id s,
   extract_struct true fuel sch id s = gen_struct fuel sch id s.
 Proof. exact extract_agrees_with_generated. Qed.
 Print Assumptions C19_extract_agrees_with_generated.
+
+(* the link to C15: for every well-formed field descriptor f of C15 (coq/Layout) that describes the
+   same slot (same offset, kind of that width, default bits, discriminant value and offset:
+   desc_matches), the getter of [Layout.gen_accessor f] - the accessor IR that genir regenerates
+   from the emitted Go code on every run and C15_emitted_is_model proves equal to the generator
+   model - run on the same struct (data section bytes; pointer slots as tokens) returns exactly
+   what [gen_getter] returns: same discriminant panic, same bit range, same XOR default; the only
+   difference is the representation (value decoded from the raw bits). All integer widths, enums,
+   floats (raw bits): *)
+Theorem C19_gen_getter_is_emitted_getter_scalar : forall tok n s dv off w d f g,
+  Layout.field_wf f -> Layout.a_get (Layout.gen_accessor f) = Some g ->
+  desc_matches n dv f -> 0 <= s_dbytes s -> s_dbytes s * 8 < 2 ^ 32 -> 0 <= off ->
+  scalar_kind (Layout.fd_kind f) w -> Layout.fd_off f = off ->
+  length (dflt_bits d w) = w -> Layout.default_raw f = z_of_bits (dflt_bits d w) ->
+  Layout.run_getter g (Layout.fd_default f) (to_strukt tok s) =
+  match gen_getter n s dv off (TInt w) d with
+  | Ok (VBits bs) => Layout.Ok (Layout.decode (Layout.fd_kind f) (z_of_bits bs))
+  | _ => Layout.Panic
+  end.
+Proof. exact gen_getter_scalar_is_emitted_getter. Qed.
+Print Assumptions C19_gen_getter_is_emitted_getter_scalar.
+
+Theorem C19_gen_getter_is_emitted_getter_bool : forall tok n s dv off d f g,
+  Layout.field_wf f -> Layout.a_get (Layout.gen_accessor f) = Some g ->
+  desc_matches n dv f -> 0 <= s_dbytes s -> s_dbytes s * 8 < 2 ^ 32 -> 0 <= off ->
+  Layout.fd_kind f = Layout.KBool -> Layout.fd_off f = off ->
+  Layout.default_raw f = Z.b2z (match dflt_bits d 1 with x :: _ => x | [] => false end) ->
+  Layout.run_getter g (Layout.fd_default f) (to_strukt tok s) =
+  match gen_getter n s dv off TBool d with
+  | Ok (VBool b) => Layout.Ok (Z.b2z b)
+  | _ => Layout.Panic
+  end.
+Proof. exact gen_getter_bool_is_emitted_getter. Qed.
+Print Assumptions C19_gen_getter_is_emitted_getter_bool.
+
+(* pointer fields (Text, Data, List, struct, interface, AnyPointer).  C15's struct model keeps opaque
+   tokens in the pointer slots (0 = null): its getter = discriminant test, read slot [off], default
+   iff the slot is null.  Proved: the emitted getter panics exactly when gen_getter does, and it
+   reads the very slot gen_getter inspects.  NOT expressible in C15's semantics (it has no pointer
+   kinds): the fallback to the default for a NON-null pointer of another kind (TextDefault etc.);
+   that case of gen_getter is read from pointer.go and tied to the code by the runs only
+   (ext/gen cases with wrong-kinded pointers; the two fixed defects were found there). *)
+Theorem C19_gen_getter_is_emitted_getter_ptr : forall tok n s dv off t d f k g,
+  Layout.field_wf f -> Layout.a_get (Layout.gen_accessor f) = Some g ->
+  desc_matches n dv f -> 0 <= s_dbytes s -> s_dbytes s * 8 < 2 ^ 32 -> 0 <= s_pcount s -> 0 <= off ->
+  tok PNull = 0 -> ptr_kind_of t = Some k -> Layout.fd_kind f = k -> Layout.fd_off f = off ->
+  (Layout.run_getter g (Layout.fd_default f) (to_strukt tok s) = Layout.Panic <-> gen_getter n s dv off t d = Panic) /\
+  (gen_check_which n s dv = true ->
+   Layout.run_getter g (Layout.fd_default f) (to_strukt tok s) =
+   Layout.Ok (Layout.ptr_value k (Layout.fd_default f) (tok (read_ptr s off)))).
+Proof. exact gen_getter_ptr_is_emitted_getter. Qed.
+Print Assumptions C19_gen_getter_is_emitted_getter_ptr.
+
+(* the premises of the bridge are satisfiable, and both sides compute the same on a concrete struct *)
+Theorem C19_bridge_nonvacuous :
+  Layout.field_wf ex_fd_int /\ desc_matches ex_node None ex_fd_int /\
+  scalar_kind (Layout.fd_kind ex_fd_int) 32 /\
+  Layout.default_raw ex_fd_int = z_of_bits (dflt_bits (DBits (bits_of_z 32 (2 ^ 32 - 123))) 32).
+Proof. exact bridge_premises_int. Qed.
+Print Assumptions C19_bridge_nonvacuous.
 
 (* inactive union members (and ordinals without a Go field) are not written: their values do not
    influence the struct Insert produces ... *)
@@ -94,6 +162,7 @@ Print Assumptions C19_extract_terminates.
 
 Theorem C19_fuel_nonvacuous : ranked ex_schema ex_rank 1.
 Proof. exact ex_ranked. Qed.
+Print Assumptions C19_fuel_nonvacuous.
 
 Theorem C19_generated_read_never_panics : forall fuel sch id s, gen_struct fuel sch id s <> Panic.
 Proof. exact gen_struct_never_panics. Qed.
@@ -102,6 +171,7 @@ Print Assumptions C19_generated_read_never_panics.
 (* non-vacuity and the refuted pre-fix variant *)
 Theorem C19_nonvacuous : schema_ok 4 ex_schema = true.
 Proof. exact ex_schema_ok. Qed.
+Print Assumptions C19_nonvacuous.
 Theorem C19_agreement_prefix_refuted :
   extract_struct false 8 ex_schema 1 ex_wrong_kind <> gen_struct 8 ex_schema 1 ex_wrong_kind.
 Proof. exact extract_agrees_prefix_refuted. Qed.
